@@ -150,9 +150,11 @@ impl StateApplyManager {
         let data_store = self.data_store.clone().unwrap();
          */
         let index_manager = self.index_manager.clone().unwrap();
+        let data_wrap = self.data_wrap.clone();
         async move {
             let reader = SnapshotReader::init_by_file(file).await?;
             let header = reader.get_header();
+            let last_index = header.last_index;
             let member_after_consensus = if header.member_after_consensus.is_empty() {
                 None
             } else {
@@ -163,12 +165,20 @@ impl StateApplyManager {
                 member_after_consensus,
                 node_addr: Some(header.node_addrs.clone()),
             });
-            //Self::do_load_snapshot(reader).await?;
-
-            Ok(())
+            //加载镜像,镜像转成状态
+            if let Some(data_wrap) = data_wrap {
+                Self::do_load_snapshot(data_wrap, reader).await?;
+            }
+            Ok(last_index)
         }
         .into_actor(self)
-        .map(|_r: anyhow::Result<()>, _act, _ctx| {})
+        .map(|r: anyhow::Result<u64>, act, _ctx| {
+            if let Ok(last_index) = r {
+                if act.last_applied_log < last_index {
+                    act.last_applied_log = last_index;
+                }
+            }
+        })
         .wait(ctx);
     }
 
